@@ -5,7 +5,9 @@
    event     = [op, o (object id), a (arguments), exc ("" or the exception class), post (projections of all live objects after
                the call), val / ref (for Read: the derived values reported by the object / by a molecule rebuilt from scratch)]
    projection = [id, ord, el, chg, rad, nbr, bonds (<<a,b,order>>), h (stored hydrogens), href (hydrogens of the rebuilt
-               molecule), lab / labref (stored ring / hybridisation / neighbour marks and those of the rebuilt molecule)]
+               molecule), lab / labref (stored ring / hybridisation / neighbour marks and those of the rebuilt molecule),
+               st / stref (configuration marks of the object / of the rebuilt molecule to which the marks the object carried
+               before the call were re-applied through the public API; canonical spelling)]
 
    The spec state is advanced with the operators of Edit (the unlogged variables - cache, pending set, snapshot - are the
    spec's own); after every event the recorded projection must equal the spec state.  Clause names carry the step. *)
@@ -71,6 +73,7 @@ Verdict(S, e, step) ==
                      THEN {Tag((IF id = e.o \/ ~S[id].live THEN "structure:" ELSE "Independent:") \o e.op, step)} ELSE {})
                     \cup (IF ~(T[id].hfresh \subseteq FreshObserved(Post(e, id))) THEN {Tag("HydrogensFresh:" \o e.op, step)} ELSE {})
                     \cup (IF ~InTx(T[id]) /\ Post(e, id).lab # Post(e, id).labref THEN {Tag("labels:" \o e.op, step)} ELSE {})
+                    \cup (IF ~InTx(T[id]) /\ ~(SetOf(Post(e, id).stref) \subseteq SetOf(Post(e, id).st)) THEN {Tag("stereo:" \o e.op, step)} ELSE {})
                     : id \in Logged(e) })
           \cup (IF e.op = "Read" /\ e.val # e.ref THEN {Tag("CacheCoherent:" \o e.a[1], step)} ELSE {})
 
